@@ -580,6 +580,34 @@ func TestVerifC05(t *testing.T) {
 		}
 	})
 
+	// a classic cross-reference table that is the last thing in the file (startxref
+	// and %%EOF come before it), cut at every byte: the end of the file falls at
+	// every position of every entry, for each end-of-line convention
+	if os.Getenv("VERIF_C05_SMALL") == "" {
+		styles := []string{" \n", "\r\n", " \r", "\n", "\r"}
+		var files [][]byte
+		var starts []int
+		total := 0
+		for _, eol := range styles {
+			f, tableStart := c05TableLast(eol)
+			files = append(files, f)
+			starts = append(starts, tableStart)
+			total += len(f) - tableStart + 1
+		}
+		r.Exhaustive("xref-table-last-truncated")
+		r.Phase("xref-table-last-truncated", total, func(c *kit.Case) {
+			i, k := 0, c.Index
+			for k > len(files[i])-starts[i] {
+				k -= len(files[i]) - starts[i] + 1
+				i++
+			}
+			cut := starts[i] + k
+			c05Run(c, mon, files[i][:cut], fmt.Sprintf("xref-table-last(eol %q) cut %d bytes into the table", styles[i], k))
+			c.R.Count("table_truncations", 1)
+			c.Distinct(fmt.Sprint(i, k))
+		})
+	}
+
 	// every token sequence up to a length over a small alphabet, as the body of one
 	// indirect object (bare and inside an array) of an otherwise valid file: the object
 	// scanner must cope with any arrangement of references, brackets and keywords
@@ -825,6 +853,37 @@ func c05Crafted(r *kit.Rand) ([]byte, string) {
 	h.Revs = []kit.XRev{rev}
 	data, _ := kit.RenderHistory(r, h, true, nil)
 	return data, what
+}
+
+// c05TableLast writes a file whose cross-reference table and trailer follow
+// startxref and %%EOF, with the given end of entry; it returns the offset of
+// the "xref" keyword.
+func c05TableLast(eol string) ([]byte, int) {
+	var b bytes.Buffer
+	b.WriteString("%PDF-1.4\n")
+	var off [4]int
+	off[1] = b.Len()
+	b.WriteString("1 0 obj\n<</Type/Catalog/Pages 2 0 R>>\nendobj\n")
+	off[2] = b.Len()
+	b.WriteString("2 0 obj\n<</Type/Pages/Kids[]/Count 0>>\nendobj\n")
+	off[3] = b.Len()
+	b.WriteString("3 0 obj\n(three)\nendobj\n")
+	var tail bytes.Buffer
+	tail.WriteString("xref\n0 4\n")
+	fmt.Fprintf(&tail, "0000000000 65535 f%s", eol)
+	for i := 1; i <= 3; i++ {
+		fmt.Fprintf(&tail, "%010d 00000 n%s", off[i], eol)
+	}
+	tail.WriteString("trailer\n<</Size 4/Root 1 0 R>>\n")
+	// the table starts after the startxref section, whose length depends on the number itself
+	start := b.Len() + len("startxref\n") + 3 + len("\n%%EOF\n")
+	sx := fmt.Sprintf("startxref\n%d\n%%%%EOF\n", start)
+	if b.Len()+len(sx) != start {
+		panic("c05TableLast: offset arithmetic")
+	}
+	b.WriteString(sx)
+	b.Write(tail.Bytes())
+	return b.Bytes(), start
 }
 
 // c05ObjStmMemberStream writes (by hand) a file whose object stream has
